@@ -6,11 +6,12 @@ Bounded-exhaustive program family (lib/symtabfam.py): every program has 4 symbol
   type {func, object, tls, notype, absolute} x fate {retained (referenced from _start), gc
   (unreferenced, own section), xl-all / xl-lib (defined in libx.a(m.o), linked with --exclude-libs
   ALL / libx.a, referenced from the member's function xanchor), vs-local (version script `local:`),
-  dyn-list (--dynamic-list), eds (--export-dynamic-symbol)}
-(local + non-default visibility is skipped by rule).  Programs = rows of a deterministic greedy
-covering array over the 16 factors (4 slots x 4 axes; strength 2 in quick, 3 in thorough;
-construction in symtabfam.covering_array, verified after construction) plus 114 rows in which each of
-the 455 legal per-symbol tuples occurs.  Every program is linked as
+  dyn-list (--dynamic-list), eds (--export-dynamic-symbol)} x {single, dup (a second, weak
+  definition of the same name with another marker and size in dup.o after main.o: it must lose)}
+(skipped by rule: local + non-default visibility; dup for local / gnu-unique / archive symbols).  Programs = rows of a deterministic greedy
+covering array over the 20 factors (4 slots x 5 axes; strength 2 in quick, 3 in thorough;
+construction in symtabfam.covering_array, verified after construction) plus 164 rows in which each of
+the 655 legal per-symbol tuples occurs.  Every program is linked as
   output {static exe, PIE, PIE --export-dynamic, -shared, -shared -Bsymbolic}
   x strip {none, --strip-debug, --strip-all} x {none, --discard-locals, --discard-all}
 by the real wild (in-process server).  Dynamic outputs import imp_f / imp_o from libimp.so.
@@ -50,7 +51,7 @@ OUTPUTS = {"static": ["-no-pie"], "pie": ["-pie"], "pie-ed": ["-pie", "--export-
 STRIPS = [(), ("--strip-debug",), ("--strip-all",)]
 DISCARDS = [(), ("--discard-locals",), ("--discard-all",)]
 OWN = {"s0", "s1", "s2", "s3", "_start", "xanchor", "imp_f", "imp_o", "imp_unused"}
-HELPERS = {"main.c", "m.c", ".Ltmp0", "loc_keep", "absrefs", ""}
+HELPERS = {"main.c", "m.c", "dup.c", ".Ltmp0", "loc_keep", "absrefs", ""}
 BN = {0: "local", 1: "global", 2: "weak", 10: "unique"}
 TN = {0: "notype", 1: "object", 2: "func", 3: "section", 4: "file", 6: "tls", 10: "ifunc"}
 VN = {0: "default", 1: "internal", 2: "hidden", 3: "protected"}
@@ -102,7 +103,8 @@ def fateclass(x, flags):
         return "exclude-libs"
     if x["fate"] == "vs-local":
         return "vs-local"
-    return x["fate"] if x["fate"] in ("dyn-list", "eds", "gc") else "plain"
+    return (x["fate"] if x["fate"] in ("dyn-list", "eds", "gc") else "plain") + \
+        ("+dup" if x.get("dup") else "")
 
 
 def oracle1(t, exp, flags, out):
@@ -114,13 +116,15 @@ def oracle1(t, exp, flags, out):
 
     def check_value(tabname, ent, x):
         _i, name, _b, _ty, _vi, cls, value, _sz = ent
+        dp = "+dup" if x.get("dup") else ""
         if x["type"] == "abs":
             if cls != "A" or value != x["value"]:
-                v.append((f"{tabname}:value:abs", f"{name}: absolute symbol has value {value:#x} "
+                v.append((f"{tabname}:value:abs{dp}", f"{name}: absolute symbol has value {value:#x} "
                           f"class {cls}, expected {x['value']:#x} SHN_ABS"))
             return
         if cls != "D":
-            v.append((f"{tabname}:value:{x['type']}", f"{name}: not section-relative (class {cls})"))
+            v.append((f"{tabname}:value:{x['type']}{dp}", f"{name}: not section-relative "
+                      f"(class {cls})"))
             return
         addr = value
         if x["type"] == "tls":
@@ -133,7 +137,7 @@ def oracle1(t, exp, flags, out):
         except elfread.ElfError as ex:
             got = f"unreadable ({ex})"
         if got != x["marker"]:
-            v.append((f"{tabname}:value:{x['type']}", f"{name}: st_value {value:#x} does not point "
+            v.append((f"{tabname}:value:{x['type']}{dp}", f"{name}: st_value {value:#x} does not point "
                       f"at the definition's marker (found {got}, expected {x['marker']})"))
 
     # ---- .symtab
@@ -166,7 +170,7 @@ def oracle1(t, exp, flags, out):
             _i, _n, b, ty, vi, cls, value, size = ent
             check_value("symtab", ent, x)
             if size != x["size"]:
-                v.append((f"symtab:size:{x['type']}", f"{name}: st_size {size}, input {x['size']}"))
+                v.append((f"symtab:size:{x['type']}{'+dup' if x.get('dup') else ''}", f"{name}: st_size {size}, input {x['size']}"))
             if ty != EXP_TYPE[x["type"]]:
                 v.append((f"symtab:type:{x['type']}->{ty}", f"{name}: type {ty}"))
             may_be_local = x["vis"] in ("hidden", "internal") or demoted(x, flags)
@@ -268,23 +272,29 @@ def oracle2(t, ldref, exp, flags, out, flagged_dyn):
 def materialise(d, row):
     os.makedirs(d, exist_ok=True)
     exps = {}
-    mem = None
+    mem = dup = None
     for imports, fn in ((False, "main_s.o"), (True, "main_d.o")):
-        m, mem, exp = F.build_program(row, imports)
+        m, mem, dup, exp = F.build_program(row, imports)
         with open(os.path.join(d, fn), "wb") as f:
             f.write(m)
         exps[imports] = exp
     if mem is not None:
         symfam.write_archive(os.path.join(d, "libx.a"), [("m.o", mem)])
+    if dup is not None:
+        with open(os.path.join(d, "dup.o"), "wb") as f:
+            f.write(dup)
     argv, files = F.option_files(row)
     for n, text in files.items():
         with open(os.path.join(d, n), "w") as f:
             f.write(text)
-    return exps, argv, mem is not None
+    return exps, argv, (mem is not None, dup is not None)
 
 
-def inputs_for(out, has_archive, libimp):
+def inputs_for(out, has, libimp):
+    has_archive, has_dup = has
     inp = ["main_s.o"] if out == "static" else ["main_d.o"]
+    if has_dup:
+        inp.append("dup.o")
     if has_archive:
         inp.append("libx.a")
     if out != "static":
@@ -300,7 +310,7 @@ def run_program(item):
     libimp = os.path.join(base, "libimp.so")
     res = {"idx": idx, "viol": [], "nsub": 0, "wild_links": 0, "ld_rejected": [],
            "wild_failed": [], "sigs": set(), "evals": 0, "unknown_names": set(),
-           "ld_config_dependence": []}
+           "ld_config_dependence": [], "model_vs_ld": {}}
     for out, oflags in OUTPUTS.items():
         if only and only.get("output") not in (None, out):
             continue
@@ -315,6 +325,11 @@ def run_program(item):
             continue
         lt = read_tables(os.path.join(d, f"ld.{out}"))
         ldref = ld_sets(lt)
+        # Oracle 1 is a model of the statement: cross-check it on GNU ld's own output; what it
+        # flags there is excluded for this (program, output) and counted.
+        ld_model_keys = {k for k, _w in oracle1(lt, exp, flags, out)[0]}
+        for k in ld_model_keys:
+            res["model_vs_ld"][k] = res["model_vs_ld"].get(k, 0) + 1
         nonlocal_names = {n for n, x in exp.items() if x["bind"] != "local"} | \
             {"imp_f", "imp_o", "imp_unused"}
 
@@ -362,7 +377,8 @@ def run_program(item):
                     if ent[1] not in OWN and ent[1] not in HELPERS:
                         res["unknown_names"].add(ent[1])
                 for k, w in v1 + v2:
-                    res["viol"].append((k, w, cfg))
+                    if k not in ld_model_keys:
+                        res["viol"].append((k, w, cfg))
     if not only:
         import shutil
         shutil.rmtree(d, ignore_errors=True)
@@ -457,9 +473,9 @@ def prepare_libimp(base):
 def command_of(row, cfg):
     out, st, di = cfg
     optargv, _f = F.option_files(row)
-    has_archive = any(s[3] in F.ARCHIVE_FATES for s in row)
+    has = (any(s[3] in F.ARCHIVE_FATES for s in row), any(s[4] == "dup" for s in row))
     return " ".join(["wild", "--gc-sections", *OUTPUTS[out], *optargv, *st, *di,
-                     *inputs_for(out, has_archive, "../../libimp.so"), "-o", "wild.out"])
+                     *inputs_for(out, has, "../../libimp.so"), "-o", "wild.out"])
 
 
 def main():
@@ -486,6 +502,7 @@ def main():
     sigs = set()
     ld_reject_reasons = {}
     unknown = set()
+    model_vs_ld = {}
     with vlib.scratch("c31") as base:
         try:
             prepare_libimp(base)
@@ -508,6 +525,8 @@ def main():
                 chk.machinery(f"GNU ld's compared sets depend on strip/discard flags: row {row} "
                               f"{dep}")
             sigs.update(map(str, r["sigs"]))
+            for k, n_ in r["model_vs_ld"].items():
+                model_vs_ld[k] = model_vs_ld.get(k, 0) + n_
             unknown.update(r["unknown_names"])
             for cfg, wrc, msg in r["wild_failed"]:
                 tot["wild_failed"] += 1
@@ -538,13 +557,14 @@ def main():
         "program_outputs_dropped_gnu_ld_rejects": tot["ld_rejected"],
         "gnu_ld_reject_reasons": ld_reject_reasons,
         "wild_link_failures": tot["wild_failed"],
+        "oracle1_rules_flagging_gnu_ld_output_excluded": model_vs_ld,
         "gnu_ld_flag_independence_checked_on_programs": n_ldcfg,
         "ignored_linker_synthesised_names": ignore,
         "names_outside_family_and_ignore_list_seen_in_wild_outputs": not_ignored,
         "rule": __doc__.split("Bounded-exhaustive program family", 1)[1].strip()[:1800],
         "samples": [{"row": rows[i]} for i in sorted({0, len(rows) // 2, len(rows) - 1})],
         "exhaustive": True,
-        "thinned": "4 symbols per program as a covering array (not the full 455^4 product); GNU ld "
+        "thinned": "4 symbols per program as a covering array (not the full 655^4 product); GNU ld "
                    "reference linked once per (program, output kind)",
     }
     chk.assumptions = [
